@@ -10,9 +10,6 @@ open HotXL
 
 open HotXL.Fn
 
-/-- SUM(*args) = sum(inumbers(args, try_parse=True)) -/
-def SUM : Builtin := fun args => (inumbers true false args).map (fun xs => .num (pySum xs))
-
-def table : List (String × Builtin) := [("SUM", SUM)]
+def table : List (String × Builtin) := []
 
 end HotXL.Fn.Math
